@@ -262,7 +262,10 @@ def mutate(rnd: random.Random) -> bytes:
 
 
 def part_c(desc) -> Acc:
+    from ..contracts import install_ash_contracts
+
     acc = Acc()
+    install_ash_contracts(acc)
     rnd = random.Random(desc["seed"])
     for i in range(desc["n"]):
         stream = mutate(rnd)
@@ -349,7 +352,8 @@ def run_shard(desc) -> Acc:
     import logging
 
     logging.disable(logging.CRITICAL)
-    return {"a": part_a, "b": part_b, "c": part_c, "mem": part_mem}[desc["part"]](desc)
+    acc = {"a": part_a, "b": part_b, "c": part_c, "mem": part_mem}[desc["part"]](desc)
+    return acc
 
 
 def post_merge(reach, tier, events=None):
